@@ -2,3 +2,6 @@
 def _t(qs=4, ts=16, qt=900, tt=7200):
     return {'shards': {'quick': qs, 'thorough': ts}, 'timeout': {'quick': qt, 'thorough': tt}}
 TABLE = {f'C{i:02d}': _t() for i in range(1, 21)}
+
+# properties with ambient monitors (vt/ambient.py): one extra shard runs the repository's own tests and doctests under them
+AMBIENT = ('C01', 'C02', 'C03', 'C04', 'C05', 'C06', 'C08', 'C09', 'C11', 'C12', 'C13', 'C14', 'C15', 'C16', 'C17', 'C18', 'C19', 'C20')
